@@ -113,6 +113,37 @@ def real_world(rep):
     rep.sample({"real_script": cases[-1]["text"][-300:], "events": [e["ev"] for e in cases[-1]["events"]][:12], "trace_verdict": res[-1]["trace"]})
 
 
+def random_scripts(rep, tier, seed):
+    """random scripts far beyond the menus, TLC (Trace_Load) as oracle and trace validator"""
+    from .. import randcases, progcmp, values
+    n = 400 if tier == "quick" else 4000
+    cases = randcases.build(seed + 5, n)
+    randcases.judge(rep, cases, "Trace_Load (oracle + trace validation for %d random scripts)" % n)
+    verdicts = {}
+    nspec = 0
+    for c in cases:
+        verdicts[c["trace"]] = verdicts.get(c["trace"], 0) + 1
+        if c["out"]["k"] != "unspec":
+            nspec += 1
+        values.EXTRA_ATOMS = dict(enumerate(c["atoms"]))
+        try:
+            why = progcmp.cmp_outcome(c["out"], c["real"], sections=("meta", "ops", "modes", "params"), strict_cls=False)
+        finally:
+            values.EXTRA_ATOMS = {}
+        if why:
+            rep.violation("random script: %s | trace verdict %s at event %d | script:\n%s" % (why, c["trace"], c["at"], c["text"]),
+                          {"text": c["text"], "reason": why, "trace": c["trace"], "fingerprint": None})
+        elif c["trace"] not in ("accepted", "unspecified", "none"):
+            rep.notes.append("trace of a random script left the listener machine (%s at event %d) although the outcome agrees" % (c["trace"], c["at"]))
+    rep.cov["random_scripts"] = n
+    rep.cov["random_scripts_specified"] = nspec
+    rep.cov["random_trace_verdicts"] = verdicts
+    rep.cov["traces_validated_against_impl"] += n
+    rep.cov["evaluations"] += n
+    rep.cov["distinct_nontrivial"] += nspec
+    rep.sample({"random_script": cases[3]["text"], "oracle_outcome": cases[3]["out"]["k"], "trace_verdict": cases[3]["trace"]})
+
+
 def run(rep, tier, seed):
     N = 2 if tier == "quick" else 3
     cases = loadcheck.explore(rep, "MC_C02", N)
@@ -122,6 +153,7 @@ def run(rep, tier, seed):
     cases += loadcheck.explore(rep, "MC_C02", 4, items="Redecl", metas="Metas", label="MC_C02 an indexed array declared again (4 items)", props=[])
     loadcheck.replay_cases(rep, cases, seed, sections=("meta", "ops", "modes"), fingerprint=fingerprint, strict_cls=False)
     real_world(rep)
+    random_scripts(rep, tier, seed)
     rep.cov["rule"] = ("scripts built item by item from a menu of 20 body items (typed scalars, arrays, statements with every argument/bracket "
                        "style, Measure*, range and list loops) x 3 metadata variants: exhaustive up to N=%d items, random walks up to 8 items; "
                        "distinct scripts; non-trivial = the specification gives a program or a refusal (not 'unspecified'); plus the repository's examples "
